@@ -9,6 +9,7 @@ NOT decided: how PyYAML/json re-type scalars, text with surrounding whitespace,
 equality with the XML form.
 """
 import ast
+import re
 
 from ..astutil import local_aliases, xtext, value_cases, calls_in, call_name, where, truthiness_tests, kw
 from ..cfg import build_cfg
@@ -262,6 +263,7 @@ def run(prog, rep):
     td = [c for c in calls_in(ts.node) if unparse(c.func).endswith(".to_dict")]
     rep.check(len(td) == 1 and unparse(td[0].func) == "DictWriter().to_dict", "SIB-3", "to_string: one DictWriter().to_dict call",
               "ok", "expected exactly one DictWriter().to_dict(...) call", ts.where)
+    n_dec = [0]
     for name in ("from_string", "from_file"):
         f0 = prog.func("tools.odmlparser.ODMLReader." + name)
         rep.saw_function(f0)
@@ -300,6 +302,22 @@ def run(prog, rep):
                 rep.check(fn in ("yaml.safe_load", "json.load", "json.loads"), "SIB-3",
                           "%s: self.parsed_doc = %s(...)" % (name, fn), "plain parser call",
                           "self.parsed_doc is computed by %s" % fn, where(f, st))
+                # ... and it is the decoder of the format the reader was built for (the inverse of the writer's dump): on every
+                # path to the store the format test of that decoder has been taken
+                if f is f0 and fn in ("yaml.safe_load", "json.load", "json.loads"):
+                    want = "YAML" if fn.startswith("yaml") else "JSON"
+                    g0 = build_cfg(f.node)
+                    nd = node_of_ast(g0, st)
+                    def _cls(leaf, _me=me):
+                        m = re.match(r"^%s\.parser == '(\w+)'$" % re.escape(_me), unparse(leaf))
+                        return ("is_" + m.group(1).upper()) if m else None
+                    n_dec[0] += 1
+                    from ..logic import known as _known
+                    rep.check(_known(g0, nd, _cls, lambda a, w=want: a.get("is_" + w, False), ["is_" + want]), "SIB-3",
+                              "%s: %s decodes %s only" % (name, fn, want), "the store is reached only where self.parser == '%s'" % want,
+                              "%s decodes with %s on a path where the reader's format is not known to be %s: the text written by the "
+                              "other format's dump is read by the wrong decoder" % (f.short, fn, want), where(f, st),
+                              witness="JSON file with 1e-07 or a non-BMP character: yaml.safe_load reads a string / lone surrogates")
         rep.floor("SIB-3", n_tos, 1, "to_odml calls reachable from %s" % f0.short)
 
     # --------------------------------------------------------------- TRUTH-2
